@@ -31,6 +31,11 @@ def mat (dim : Nat) (j : Json) : Except String Mat := do
 
 def handle (op : String) (j : Json) : Option (Except String Json) :=
   match op with
+  | "c06.is_hermitian" => some do
+    let dim ← J.nat (← J.field j "dim")
+    let M ← mat dim (← J.field j "entries")
+    let tol ← J.rat (← J.field j "tol")
+    .ok (Json.bool (isHermitianMat tol M))
   | "c06.expectation" => some do
     let dim ← J.nat (← J.field j "dim")
     let M ← mat dim (← J.field j "entries")
